@@ -626,6 +626,9 @@ func (g *Gen) typedFill(steps []Step, vars []string, partial bool) []KV {
 			a = Arg{T: 'o'}
 		case strings.HasPrefix(v, "..."):
 			a = Arg{T: 'i', IK: KInt, I: int64(g.pick(3))}
+			if g.pick(25) == 0 {
+				a.I = int64(10 + g.pick(3)) // two-digit indices
+			}
 		case !g.plainFill && k != "A" && g.chance(0.1):
 			// a string renames the variable: to a new name, or to one the template already uses
 			g.count("c09:rename")
@@ -684,6 +687,20 @@ func (g *Gen) typedFill(steps []Step, vars []string, partial bool) []KV {
 			}
 		}
 		out = append(out, KV{[]byte(v), a})
+	}
+	if !g.plainFill && g.pick(12) == 0 {
+		// a key that looks like an ellipsis the template does not have: ignored like any unknown key, whatever its value
+		k := []string{"...[97]", "...[98]", "...[99]"}[g.pick(3)]
+		known := false
+		for _, v := range vars {
+			if v == k {
+				known = true
+			}
+		}
+		if !known {
+			out = append(out, KV{[]byte(k), []Arg{{T: 's', S: []byte("text")}, {T: 'o'}, {T: 'i', IK: KInt, I: -4}, {T: '8', U: 0x3ff8000000000000}}[g.pick(4)]})
+			g.count("c09:unknown-ellipsis-key")
+		}
 	}
 	return out
 }
@@ -979,7 +996,7 @@ func (c *Ctx) ellipsisCase(g *Gen, root int, label string) {
 
 func suiteC10(c *Ctx) {
 	// exhaustive small templates
-	shapes := enumShapes(c.scale(1, 2), c.scale(3, 3), []byte{'u', 'v', 'a', 'c'})
+	shapes := enumShapes(1, 3, []byte{'u', 'v', 'a', 'c'}) // depth 2 is millions of templates; the thorough tier takes all of depth 1
 	cnt := 0
 	for _, s := range shapes {
 		if !hasEllipsis(s) {
@@ -1019,7 +1036,7 @@ func suiteC10(c *Ctx) {
 			}
 			return s
 		}
-		s := mk(1 + g.pick(c.scale(3, 5)))
+		s := mk(1 + g.pick(c.scale(3, 4)))
 		if !hasEllipsis(s) {
 			continue
 		}
